@@ -316,6 +316,7 @@ func (e *Engine) pureRegion(f *frame, b *ssa.BasicBlock, arr []arrival, stop *ss
 		if guard.isFalse() {
 			return nil
 		}
+		e.cover(b)
 		f.visit[b]++
 		if f.visit[b] > e.unwind*64 {
 			panic(pathAbort{fmt.Sprintf("unwinding bound exceeded in guarded code %s block %d", f.fn.Name(), b.Index)})
